@@ -34,7 +34,7 @@ fn val_to_json(v: &Value) -> J {
         Value::Int64Value(n) => json!({"k": "i64", "v": n}),
         Value::UInt32Value(n) => json!({"k": "u32", "v": n}),
         Value::UInt64Value(n) => json!({"k": "u64", "v": n}),
-        Value::Float64Value(x) => json!({"k": "f64", "v": format!("{:?}", x)}),
+        Value::Float64Value(x) => json!({"k": "f64", "v": x}),
         Value::BooleanValue(b) => json!({"k": "bool", "v": b}),
         Value::BigInt(n) => json!({"k": "bigint", "v": n.to_string()}),
         Value::BigUint(n) => json!({"k": "biguint", "v": n.to_string()}),
@@ -146,6 +146,10 @@ form_ty! {
     struct HdrSlots { #[form(header)] h1: i32, #[form(header)] h2: Option<String>, first: i32 }
 
     struct HdrOpt { #[form(header)] h: Option<i32>, x: i32 }
+
+    struct AttrVec { #[form(attr)] v: Vec<i32>, x: i32 }
+
+    struct AttrMap { #[form(attr)] m: HashMap<String, i32>, x: i32 }
 
     struct HdrBoth { #[form(header_body)] hb: bool, #[form(header)] h1: i32, first: String }
 
@@ -349,7 +353,7 @@ macro_rules! battery {
 
 battery! {
     "Unit" => Unit, "Simple" => Simple, "Two" => Two, "Tup" => Tup, "Renamed" => Renamed, "TupRen" => TupRen,
-    "WithAttr" => WithAttr, "TwoAttrs" => TwoAttrs, "HdrBody" => HdrBody, "HdrSlots" => HdrSlots, "HdrOpt" => HdrOpt,
+    "WithAttr" => WithAttr, "TwoAttrs" => TwoAttrs, "HdrBody" => HdrBody, "HdrSlots" => HdrSlots, "HdrOpt" => HdrOpt, "AttrVec" => AttrVec, "AttrMap" => AttrMap,
     "HdrBoth" => HdrBoth, "HdrVec" => HdrVec, "HdrNest" => HdrNest, "BodyVec" => BodyVec, "BodyStr" => BodyStr,
     "BodyNest" => BodyNest, "Skippy" => Skippy, "SkipTup" => SkipTup, "Opt" => Opt, "Coll" => Coll,
     "GenI" => Gen<i32>, "GenS" => Gen<String>, "GenTwo" => Gen<Two>, "GenOptTwo" => Gen<Option<Two>>,
